@@ -23,6 +23,7 @@ RULE = (
     "the object returned by call 1 is still fully usable; exceptions replay as the same class when Class(message) can be built else MementoException, original message contained; "
     "NonMemoizedException is never recorded; call_batch([a, a']) with a memoized and a' new runs only a' and returns the memoized value next to the new one; forget(a) makes exactly call a run again and no other. Non-trivial = anything but a bare scalar literal; distinct by (type shape, backend, modifier)."
     " Round 5: text (string values, exception messages, dictionary keys) may contain lone surrogates; after the forget step every call of the function is forgotten at once (forget_all) while the caller still holds the last value returned, and both calls must run again exactly once and be memoized again."
+    " Round 6: modifiers monitor_progress(), force_local().monitor_progress(), ignore_result().ignore_result(False); an equal-arguments step (a structured argument given again with every dictionary in the opposite insertion order is served, and forgetting under one spelling forgets the other)."
 )
 ASSUMPTIONS = [
     "frames/series stay <= 100 rows (above that the cache estimates size by random row sampling)",
